@@ -134,7 +134,7 @@ impl SendSys {
             Ev::Add(k) => {
                 let o = &self.catalog[*k];
                 let res = match o.desc(None) {
-                    Ok(d) => match self.sender.add_object(o.prio, d) {
+                    Ok(d) => match add_tallied(&mut self.sender, o.prio, d, &self.spec.oti) {
                         Ok(t) => {
                             self.toi_of[*k] = Some(t);
                             format!("toi={}", t)
